@@ -83,6 +83,7 @@ sm4_gcm(IMB_MGR *state, const struct gcm_key_data *key_data, void *dst, const vo
 
 #ifdef SAFE_DATA
         imb_clear_mem(enc_counter_block_0, 16);
+        imb_clear_mem(initial_tag, 16);
 #endif
 }
 
